@@ -742,3 +742,100 @@ func TestC07FileFromFS(t *testing.T) {
 	rec.Exact(evals, nontriv)
 	rec.Exhaustive("all targets of one or two tokens under a catch-all route whose handler calls ctx.FileFromFS, plus doubly encoded ones")
 }
+
+// TestC07FileByParam: a download handler that builds a file-system path from a route parameter and hands it to
+// ctx.File / ctx.FileFromFS, after the check an application makes (no separator in the name, not "." or "..").
+// The parameter is the target percent-decoded once; the file that is served is the file of exactly that name, or
+// there is no such file (404). A second decoding on the way to the file system opens another file, and an escaped
+// "../" leaves the directory.
+func TestC07FileByParam(t *testing.T) {
+	rec := ev.New("file-by-param")
+	sb := newSandbox(t)
+	defer sb.close()
+	dir := filepath.Join(sb.root, "h")
+	files := map[string]string{"a%41.txt": "LITERAL a%41.txt", "aA.txt": "DECODED aA.txt", "x y": "SPACE", "x%20y": "LITERAL x%20y", "q?r": "QUESTION", "q": "CUT AT QUESTION MARK", "s#t": "HASH", "s": "CUT AT HASH", "%2e%2e%2ftoplevel.txt": "LITERAL dots"}
+	for n, c := range files {
+		if err := os.WriteFile(filepath.Join(dir, n), []byte(c), 0o644); err != nil {
+			t.Fatal(err)
+		}
+	}
+	fs := &app.FS{Root: sb.root}
+	ok := func(name string) bool {
+		return name != "" && name != "." && name != ".." && !strings.ContainsAny(name, "/\\")
+	}
+	s := sconn.NewServer(func(h *server.Hertz) {
+		h.GET("/file/:name", func(c context.Context, ctx *app.RequestContext) {
+			name := ctx.Param("name")
+			ctx.Response.Header.Set("X-Name", fmt.Sprintf("%x", name))
+			if !ok(name) {
+				ctx.AbortWithStatus(403)
+				return
+			}
+			ctx.File(filepath.Join(dir, name))
+		})
+		h.GET("/fromfs/:name", func(c context.Context, ctx *app.RequestContext) {
+			name := ctx.Param("name")
+			ctx.Response.Header.Set("X-Name", fmt.Sprintf("%x", name))
+			if !ok(name) {
+				ctx.AbortWithStatus(403)
+				return
+			}
+			ctx.FileFromFS("/h/"+name, fs)
+		})
+	})
+	defer s.Close()
+	names := []string{"own.txt", "a%2541.txt", "aA.txt", "a%41.txt", "x%20y", "x%2520y", "q%3Fr", "s%23t", "%252e%252e%252ftoplevel.txt", "%252e%252e%252fother%252fsecret.txt", "%252e%252e", "%2e%2e%2ftoplevel.txt", "missing", "%2525"}
+	for _, a := range tokens {
+		for _, b := range tokens {
+			names = append(names, a+b)
+		}
+	}
+	var evals, nontriv int64
+	fails := 0
+	for _, route := range []string{"/file/", "/fromfs/"} {
+		for _, n := range names {
+			target := route + n
+			if !requestable(target) {
+				continue
+			}
+			res := s.Serve(sconn.New([][]byte{[]byte("GET " + target + " HTTP/1.1\r\nHost: h\r\nConnection: close\r\n\r\n")}, sconn.EOF))
+			evals++
+			if strings.Contains(n, "%25") {
+				nontriv++
+			}
+			msg := ""
+			if res.Panic != nil {
+				msg = fmt.Sprintf("panic: %v", res.Panic)
+			} else if bytes.Contains(res.Output, []byte(canary)) || bytes.Contains(res.Output, []byte(vhostMark)) {
+				msg = fmt.Sprintf("served a file from outside the download directory: %.200q", res.Output)
+			} else if resp, err := http.ReadResponse(bufio.NewReader(bytes.NewReader(res.Output)), &http.Request{Method: "GET"}); err != nil {
+				msg = fmt.Sprintf("unreadable response: %v", err)
+			} else if xn := resp.Header.Get("X-Name"); xn != "" && resp.StatusCode != 403 {
+				var name []byte
+				fmt.Sscanf(xn, "%x", &name)
+				body, _ := io.ReadAll(resp.Body)
+				want, err := os.ReadFile(filepath.Join(dir, string(name)))
+				st, serr := os.Stat(filepath.Join(dir, string(name)))
+				switch {
+				case err == nil && serr == nil && !st.IsDir():
+					if resp.StatusCode != 200 || !bytes.Equal(body, want) {
+						msg = fmt.Sprintf("the handler asked for the file named %q (content %q); the answer is %d %.60q", name, want, resp.StatusCode, body)
+					}
+				case resp.StatusCode == 200:
+					msg = fmt.Sprintf("the handler asked for the file named %q, which does not exist; the answer is 200 %.60q", name, body)
+				}
+			}
+			if msg != "" {
+				fails++
+				ev.Fail(prop, "file-by-param", map[string]string{"target": target}, msg)
+				t.Errorf("target %q: %s", target, msg)
+				if fails >= 8 {
+					rec.Exact(evals, nontriv)
+					return
+				}
+			}
+		}
+	}
+	rec.Exact(evals, nontriv)
+	rec.Exhaustive("all names of two tokens plus doubly encoded and reserved-character names, through ctx.File and ctx.FileFromFS behind a route parameter")
+}
